@@ -221,6 +221,11 @@ func (t *Tokenizer) tokenizeBuffer(buf []byte, last bool) {
 			depth++
 			continue
 		case closeObject:
+			if 0 < depth && 256 < len(t.mode) && t.mode[256] == 't' {
+				t.addToken(string(t.tmp))
+				off-- // the token is complete, handle the bracket again in the new mode
+				break
+			}
 			depth--
 			if depth < 0 || t.starts[depth] != objectStart {
 				t.newError(off, "unexpected object close")
@@ -313,6 +318,11 @@ func (t *Tokenizer) tokenizeBuffer(buf []byte, last bool) {
 			depth++
 			continue
 		case closeArray:
+			if 0 < depth && 256 < len(t.mode) && t.mode[256] == 't' {
+				t.addToken(string(t.tmp))
+				off-- // the token is complete, handle the bracket again in the new mode
+				break
+			}
 			depth--
 			if depth < 0 || t.starts[depth] != arrayStart {
 				t.newError(off, "unexpected array close")
